@@ -670,7 +670,7 @@ fn main() {
                 }
             }
         }
-        let n_random = if args.thorough() { 6_000 } else { 700 };
+        let n_random = if args.thorough() { 30_000 } else { 3_000 };
         for _ in 0..n_random {
             let n = 2 + rng.below(3) as usize;
             let s = random_schedule(&mut rng, n, focus_c06);
